@@ -99,8 +99,31 @@ def gen_case(rng):
     ne = int(rng.integers(1, 5))
     etas = [eta_pool[int(i)] for i in rng.choice(len(eta_pool), size=ne,
                                                  replace=False)]
-    form = str(rng.choice(['range', 'range', 'list', 'single']))
-    if form == 'range':
+    if rng.random() < 0.2:
+        # a sweep towards infinite bias: directions that agree to 4 decimals
+        big = ['25000', '30000', '100000', '1000000', 'inf', '20001']
+        etas = [big[int(i)] for i in rng.choice(len(big), size=int(
+            rng.integers(2, 5)), replace=False)]
+    form = str(rng.choice(['range', 'range', 'list', 'single', 'fine']))
+    if form == 'fine':
+        # error rates far below the 1e-6 scale (low-rate / splitting studies)
+        k = int(rng.integers(0, 3))
+        if k == 0:
+            rates = [2e-7]
+            prob = '2e-7'
+            form = 'single'
+        elif k == 1:
+            rates = [4e-7, 2e-6, 0.001]
+            prob = '0.0000004,0.000002,0.001'
+            form = 'list'
+        else:
+            step = float(rng.choice([2.5e-6, 5e-7, 1.25e-6]))
+            nk = int(rng.integers(2, 6))
+            lo, hi = 0.0, round(nk * step, 12)
+            prob = f'{lo:g}:{hi:.10f}:{step:.10f}'
+            rates = [round(i * step, 10) for i in range(nk + 1)]
+            form = 'range'
+    elif form == 'range':
         step = float(rng.choice([0.1, 0.05, 0.01, 0.005, 0.001, 0.002, 0.02,
                                  0.025]))
         k0 = int(rng.integers(0, 40))
